@@ -350,3 +350,45 @@ def observe(rec):
     return {"stats": stats, "signature": tuple(sig),
             "nontrivial": monitor.waited or bool(monitor.struck),
             "states": sorted(monitor.states)}
+
+
+def probe_finding(finding):
+    """F23: a share handed to another activity that still borrows from it when the block that
+    owns the share ends: the share's level goes negative and the supply is over-committed."""
+    if finding["id"] != "F23":
+        return False
+    from .. import bind_repo
+    usim = bind_repo()
+    seen = {}
+
+    async def tenant(share):
+        async with share.borrow(a=1):
+            await (usim.time + 10)
+
+    async def late(supply):
+        await (usim.time + 2)
+        async with supply.claim(a=2):        # everything "free" again while the tenant holds 1
+            seen["claimed_at"] = usim.time.now
+            await (usim.time + 1)
+
+    async def main():
+        supply = usim.Resources(a=2)
+        async with usim.Scope() as scope:
+            async with supply.borrow(a=2) as share:
+                scope.do(tenant(share))
+                scope.do(late(supply))
+                await (usim.time + 1)
+            seen["share_after"] = dict(share.levels.__dict__) if hasattr(share.levels, "__dict__") \
+                else {"a": share.levels.a}
+            seen["supply_after"] = supply.levels.a
+
+    try:
+        usim.run(main())
+    except BaseException as err:             # noqa: any other outcome means the finding changed
+        if isinstance(err, usim.ResourcesUnavailable):
+            return False                     # the late claim was refused: conserved
+        if isinstance(err, usim.Concurrent) and all(
+                isinstance(child, usim.ResourcesUnavailable) for child in err.children):
+            return False
+        raise
+    return seen.get("claimed_at") == 2 or seen.get("share_after", {}).get("a", 0) < 0
